@@ -15,8 +15,9 @@ from contracts import C08 as _c08, C10 as _c10, C15 as _c15, C17 as _c17
 MM = "mlinsights/mlmodel/"
 
 # (1) the row-wise contracts, re-registered for C04 ---------------------------------------------------------------
-contract(_c08.TransformBins.key, "C04", assumed=True)(type("TransformBins", (_c08.TransformBins,), {}))
-for _cls in (_c08.RegPredict, _c08.ClfProba, _c08.ClfPredict, _c10.NodeProba, _c10.NodePredict, _c10.NodePath,
+# transform_bins decides which model answers for a row: its contract (a row's bucket depends on that row only; unseen cells get -1) is
+# verified under this property as well - a bucket that depended on the other rows of the batch would break "per-row function" first
+for _cls in (_c08.TransformBins, _c08.RegPredict, _c08.ClfProba, _c08.ClfPredict, _c10.NodeProba, _c10.NodePredict, _c10.NodePath,
              _c15.LearnerTransform, _c15.TransferTransform, _c17.PredictAll):
     contract(_cls.key, "C04")(type(_cls.__name__, (_cls,), {"canaries": {}}))
 
@@ -73,7 +74,7 @@ class CloneFitted(CloneFittedBase):
 
 META = dict(
     level="proof", lean_files=["lemmas/Sums.lean"], assumptions=["A1", "A2", "A6", "A7", "A8", "A9"],
-    trusted=["the assumed contracts of C08/C10/C15/C17 (estimator protocol: outputs are deterministic functions of fitted state and row; transform_bins: contract proved under C08, used here as a summary)",
+    trusted=["the assumed contracts of C08/C10/C15/C17 (estimator protocol: outputs are deterministic functions of fitted state and row; transform_bins is verified here as under C08)",
              "row extensionality; copy.deepcopy copies arrays/lists; sklearn.base.clone copies constructor parameters and clones nested estimators"],
     not_applicable=["pickle round trips (and the Cython criteria's __reduce__): no contract within reach expresses pickling - bounded stand-in",
                     "KMeansL1L2 / ConstraintKMeans / PiecewiseTreeRegressor predictions: row-wise by delegation to scikit-learn (assumed) - bounded stand-in; "
